@@ -775,6 +775,14 @@ def channel_specs():
             m = UnetModel2d(cin, cout, F, L, 0.0)
             return m, unet_hooks(m), 1, cin, None
         add(f"fwc_unet2d_{cin}_{cout}_{F}_L{L}", f"Shapes.unetC {cin} {cout} {F} {L}", bu)
+    # MultiDomainUnet2d: every MultiDomainConv2d is a pair of convolutions with `out_channels // 2` filters on the same input
+    for cin, cout, F, L in [(2, 2, 4, 1), (4, 3, 2, 2), (2, 5, 6, 3), (6, 2, 4, 0)]:
+        def bu(cin=cin, cout=cout, F=F, L=L):
+            from direct.data.transforms import fft2, ifft2
+            from direct.nn.multidomainnet.multidomain import MultiDomainUnet2d
+            m = MultiDomainUnet2d(fft2, ifft2, cin, cout, F, L, 0.0)
+            return m, unet_hooks(m), 1, cin, None
+        add(f"fwc_mdunet_{cin}_{cout}_{F}_L{L}", f"Shapes.mdUnetC {cin} {cout} {F} {L}", bu)
     for cin, cout, F, L in [(2, 2, 2, 2), (6, 2, 3, 1), (4, 4, 2, 4)]:
         def bu(cin=cin, cout=cout, F=F, L=L):
             from direct.nn.unet.unet_2d import NormUnetModel2d
